@@ -170,7 +170,7 @@ func buildExtras() {
 	}
 	fd2 := &descriptorpb.FileDescriptorProto{
 		Name: proto.String("c20.proto"), Package: proto.String("c20"), Syntax: proto.String("proto3"),
-		EnumType:    []*descriptorpb.EnumDescriptorProto{{Name: proto.String("E"), Value: []*descriptorpb.EnumValueDescriptorProto{ev("A", 0), ev("B", 2), ev("C", 5), ev("D", 9)}}},
+		EnumType:    []*descriptorpb.EnumDescriptorProto{{Name: proto.String("E"), Value: []*descriptorpb.EnumValueDescriptorProto{ev("A", 0), ev("B", 7), ev("C", 5), ev("D", 9)}}},
 		MessageType: []*descriptorpb.DescriptorProto{N.m},
 	}
 	f2, err := protodesc.NewFile(fd2, nil)
@@ -218,8 +218,9 @@ func buildSchema() {
 		Package: proto.String("c20"),
 		Syntax:  proto.String("proto3"),
 		EnumType: []*descriptorpb.EnumDescriptorProto{
-			{Name: proto.String("E"), Value: []*descriptorpb.EnumValueDescriptorProto{ev("A", 0), ev("B", 1), ev("C", 5)}},
-			{Name: proto.String("F"), Value: []*descriptorpb.EnumValueDescriptorProto{ev("X", 0), ev("Y", 1)}},
+			// numbers with gaps, out of declaration order and negative: the declaration index of a value is not its number
+			{Name: proto.String("E"), Value: []*descriptorpb.EnumValueDescriptorProto{ev("A", 0), ev("B", 2), ev("C", 5), ev("D", 1), ev("G", 3), ev("N", -2)}},
+			{Name: proto.String("F"), Value: []*descriptorpb.EnumValueDescriptorProto{ev("X", 0), ev("Y", 3), ev("Z", 1)}},
 		},
 		MessageType: []*descriptorpb.DescriptorProto{T.m, N.m},
 	}
@@ -347,9 +348,18 @@ func candidates(k string, small bool) []sval {
 			sv(starlark.Float(math.Inf(1))), sv(starlark.Float(0.1)), sv(starlark.MakeInt(1)), sv(starlark.MakeBigInt(new(big.Int).Add(p2(53), big.NewInt(1)))), sv(starlark.MakeBigInt(p2(1100))),
 			sv(starlark.String("1")), sv(starlark.None), sv(starlark.True))
 	case "enum":
-		out = append(out, sv(enumVal(eDesc, 0)), sv(enumVal(eDesc, 1)), sv(enumVal(eDesc, 5)), sv(enumVal(fDesc, 1)),
-			sv(starlark.MakeInt(0)), sv(starlark.MakeInt(1)), sv(starlark.MakeInt(5)), sv(starlark.MakeInt(2)), sv(starlark.MakeInt(-1)),
-			sv(starlark.MakeBigInt(p2(31))), sv(starlark.MakeBigInt(p2(40))), sv(starlark.String("A")), sv(starlark.String("C")), sv(starlark.String("Z")),
+		for _, n := range []int32{0, 2, 5, 1, 3, -2} {
+			out = append(out, sv(enumVal(eDesc, n)))
+		}
+		out = append(out, sv(enumVal(fDesc, 1)), sv(enumVal(fDesc, 3)))
+		for _, n := range []int{0, 1, 2, 3, 4, 5, 6, -1, -2, -3} {
+			out = append(out, sv(starlark.MakeInt(n)))
+		}
+		for _, nm := range []string{"A", "B", "C", "D", "G", "N", "Z", "X"} {
+			out = append(out, sv(starlark.String(nm)))
+		}
+		out = append(out,
+			sv(starlark.MakeBigInt(p2(31))), sv(starlark.MakeBigInt(p2(40))),
 			sv(starlark.Float(1)), sv(starlark.None), sv(starlark.True))
 	}
 	return out
@@ -597,9 +607,9 @@ func modeViews() {
 		case "float", "double":
 			return [][]starlark.Value{{starlark.Float(1.5), starlark.Float(5)}, {starlark.Float(1)}}
 		case "enum":
-			return [][]starlark.Value{{enumVal(eDesc, 5), enumVal(eDesc, 1)}, {enumVal(eDesc, 0)}}
+			return [][]starlark.Value{{enumVal(eDesc, 5), enumVal(eDesc, 1)}, {enumVal(eDesc, 0)}, {enumVal(eDesc, 2), enumVal(eDesc, -2), enumVal(eDesc, 3)}}
 		case "enumf":
-			return [][]starlark.Value{{enumVal(fDesc, 1), enumVal(fDesc, 0)}, {enumVal(fDesc, 1)}}
+			return [][]starlark.Value{{enumVal(fDesc, 1), enumVal(fDesc, 0)}, {enumVal(fDesc, 3)}}
 		}
 		return nil
 	}
